@@ -553,7 +553,15 @@ func (g *Gen) RawInputs() []*RawObs {
 		if len(fs) > 0 && len(fs[len(fs)-1]) == 0 {
 			fs = fs[:len(fs)-1]
 		}
-		switch g.R.Intn(4) {
+		switch g.R.Intn(6) {
+		case 4, 5: // the CheckSum field stays last, the fields before it change places (BeginString / BodyLength are no longer
+			// the first two): the sum of the bytes before the CheckSum field does not depend on their order
+			head := fs[:len(fs)-1]
+			if len(head) >= 3 {
+				k := 1 + g.R.Intn(len(head)-1)
+				rot := append(append([][]byte{}, head[k:]...), head[:k]...)
+				fs = append(rot, fs[len(fs)-1])
+			}
 		case 0: // CheckSum first
 			fs = append([][]byte{fs[len(fs)-1]}, fs[:len(fs)-1]...)
 		case 1: // rotation
@@ -568,8 +576,8 @@ func (g *Gen) RawInputs() []*RawObs {
 		}
 		return bytes.Join(fs, nil)
 	}
-	switch g.R.Intn(8) {
-	case 6, 7:
+	switch g.R.Intn(9) {
+	case 6, 7, 8:
 		in = reorder()
 	case 0:
 		in = small(g.R.Intn(12))
